@@ -9,6 +9,7 @@ from .common import case, guarded, rand_perm
 from . import c06
 
 ID = "C14"
+COVER_FILES = ['aggregation/singlewinner.py']
 RULE = ("exhaustive: every profile over m <= 3 alternatives with <= 3 distinct ballots and multiplicities in {1,2}, "
         "soc (both rules) and soi (fallback; Bucklin must refuse), plus toc/toi/cat/wmd labels (both must refuse); "
         "random: m <= 8, <= 9 distinct ballots, multiplicities <= 50: shared first choices, first-place majorities "
